@@ -3,7 +3,8 @@ CONSTANTS
   Names = {"svc", "nested", "trace.trace_id", "bin.key", "meta.refinery.reason", "app.extra"}
   Reserved = {"meta.refinery.reason"}
   KeyFields = {"svc", "nested"}
-  TsNames = {"svc", "nested"}
+  TsNames = {"svc"}
+  TsPaths = {"msgp"}
   ClientNames = {"svc", "nested", "trace.trace_id", "bin.key", "meta.refinery.reason"}
   Settable = {"meta.refinery.reason", "app.extra"}
   SetVals = {"s1"}
